@@ -2,7 +2,7 @@
    Set / SetWithBuffer header (/repo/compiler.go) computes, statement by
    statement, on the value behind the `*T` argument.
 
-   This is the model of the emitter AFTER five fix: commits (findings/C03.txt):
+   This is the model of the emitter AFTER six fix: commits (findings/C03.txt):
      a. the leaf code of a basic node (map value / slice element) no longer returns
         before the parent's write-back `s[i] = x` (lost update on []int32 ...);
      b. the leaf code of a struct that is a COPY of a map entry stores the copy back
@@ -12,7 +12,15 @@
         before the code below it runs (nil-map write panic);
      d. a nil pointer-to-scalar field returns instead of being dereferenced;
      e. a field of a named scalar type is assigned through a pointer to its
-        underlying builtin type.
+        underlying builtin type;
+     f. the store-back `m[k] = x1` of a struct held BY VALUE as map entry is pending for
+        all the code below the entry (nested structs, pointers, slice elements; a further
+        map starts over with its own entries): every leaf return below the entry executes
+        it, and so does the nil check of a pointer / map / slice field right after the new
+        container went into the copy.  [lg = true] is the emitter BEFORE f: only the leaf
+        code of the entry struct itself stored the copy back, below a nested field the
+        assignment was lost (theorem C03_refuted_nested_in_map_entry).  Everything but
+        that theorem is about [lg = false].
 
    WHICH OBJECT a statement writes to: the Go variable of a child is bound live
    (`&v.F`, `&s[i]`), or holds a reference (pointers, map and slice headers: what
@@ -133,8 +141,9 @@ Definition leaf_store (n : node) (s : src) (buf : bool) (v : val) : val :=
 (* ---------- how a block of emitted set-mode code ends ---------- *)
 Inductive sres :=
 | SFall (v : val)                               (* fell through; v = what the variable designates now *)
-| SRet (v : val) (wb : bool) (e : option err)   (* returned; wb = the write-back of the enclosing map entry
-                                                   (`m[k] = x`) was executed by this very code before *)
+| SRet (v : val) (wb : bool) (e : option err)   (* returned; wb = the pending store-back of the enclosing by-value
+                                                   map entry (`m[k] = x`) was executed by this very code, after
+                                                   everything it changed in the copy directly *)
 | SPanic (k : pkind).
 
 Definition is_nil_val (v : val) : bool :=
@@ -187,6 +196,15 @@ Fixpoint keep_shared (n : node) (old new : val) {struct n} : val :=
     end
   end.
 
+(* does the nil check of a non-basic struct child allocate (and store into the field)? *)
+Definition creates (ch : node) (f : val) : bool :=
+  if n_ptr ch then match f with VPtr None => true | _ => false end
+  else match n_typ ch, f with
+       | typeMap, VMap true _ => true
+       | typeSlice, VSlice true _ _ => true
+       | _, _ => false
+       end.
+
 (* m[k] = e.  Pointer keys are the address of a local: a new entry every time *)
 Fixpoint kvs_put (kvs : list (val * val)) (k e : val) : list (val * val) :=
   match kvs with
@@ -197,10 +215,12 @@ Definition map_put (kn : node) (kvs : list (val * val)) (k e : val) : list (val 
   if n_ptr kn then kvs ++ [(VPtr (Some k), e)] else kvs_put kvs k e.
 
 (* the field dispatch of a struct node in set mode.
+     lg    the emitter before fix f
      rec   the code of a non-basic child at depth+1
      leaf  AssignBuf on a basic child
-     wbk   the struct is a copy of a map entry: its leaf code stores it back before returning *)
-Definition set_walk (rec : node -> val -> sres) (leaf : node -> val -> val) (wbk : bool) (seg : string)
+     wbk   the store-back of an enclosing by-value map entry is pending (c.setWB): the leaf code
+           executes it before returning, the nil check after it allocated *)
+Definition set_walk (lg : bool) (rec : node -> val -> sres) (leaf : node -> val -> val) (wbk : bool) (seg : string)
   : list node -> nat -> list val -> sres :=
   fix walk (chs : list node) (idx : nat) (fs : list val) {struct chs} : sres :=
     match chs with
@@ -214,11 +234,13 @@ Definition set_walk (rec : node -> val -> sres) (leaf : node -> val -> val) (wbk
             if n_ptr ch && is_nil_val f then SRet (VStruct fs) false None       (* if v.F == nil { return nil } *)
             else SRet (VStruct (upd_nth idx (leaf ch f) fs)) wbk None
           else
-            (* nv := [&]v.F; if nv == nil { nv = ...; v.F = nv }; <child code>; v.F = [*]nv *)
+            (* nv := [&]v.F; if nv == nil { nv = ...; v.F = nv; <pending store-back> }; <child code>; v.F = [*]nv.
+               The entry holds what the copy holds when the child code stored it back, or when the
+               nil check did and the child code went on through the new container only. *)
             let f1 := nil_chk ch f in
             match rec ch f1 with
             | SFall f2 => walk rest (S idx) (upd_nth idx f2 fs)
-            | SRet f2 _ e => SRet (VStruct (upd_nth idx f2 fs)) false e
+            | SRet f2 wb e => SRet (VStruct (upd_nth idx f2 fs)) (negb lg && (wb || (wbk && creates ch f))) e
             | SPanic k => SPanic k
             end
         end
@@ -234,16 +256,18 @@ Definition wrap_ptr (r : sres) : sres :=
 
 (* The code emitted for one node once the length check and the nil check are passed, run on the
    value x behind the variable.
-     rec ch pm f   the code of the child node ch at depth+1 (pm: its parent is a map)
-     p             node.ptr;  pmap: the parent of this node is a map *)
-Definition set_body (rec : node -> bool -> val -> sres) (s : src) (buf : bool)
+     rec ch w f    the code of the child node ch at depth+1 (w: a store-back is pending there)
+     p             node.ptr;  wbk: the store-back of an enclosing by-value map entry is pending.
+   A struct and a slice hand the pending store-back down (not before fix f), a map replaces it:
+   by the store-back of its own entry when that is a struct held by value, by none otherwise. *)
+Definition set_body (lg : bool) (rec : node -> bool -> val -> sres) (s : src) (buf : bool)
   (ty : typ) (tn : string) (p : bool) (chld : list node) (mk mv sl : option node) (self : node)
-  (pmap : bool) (depth : nat) (path : list string) (x : val) : sres :=
+  (wbk : bool) (depth : nat) (path : list string) (x : val) : sres :=
   match ty with
   | typeStruct =>
     match x, nth_error path depth with
     | VStruct fs, Some seg =>
-      set_walk (fun ch f => rec ch false f) (fun ch f => leaf_store ch s buf f) (pmap && negb p) seg chld 0 fs
+      set_walk lg (fun ch f => rec ch (wbk && negb lg) f) (fun ch f => leaf_store ch s buf f) wbk seg chld 0 fs
     | VStruct _, None => SFall x
     | _, _ => SPanic PTypeAssert
     end
@@ -266,7 +290,7 @@ Definition set_body (rec : node -> bool -> val -> sres) (s : src) (buf : bool)
           let e1 := if alloc then nil_chk vn e0 else e0 in
           let store (e2 : val) (e : option err) : sres :=
             if nl0 then SPanic PNilMap else SRet (VMap false (map_put kn kvs k e2)) false e in
-          match rec vn true e1 with
+          match rec vn ((match n_typ vn with typeStruct => true | _ => false end) && negb (n_ptr vn)) e1 with
           | SFall e2 => store e2 None                       (* m[k] = x; return nil *)
           | SRet e2 true e => store e2 e                    (* the child stored the copy back itself *)
           | SRet e2 false e =>
@@ -297,9 +321,9 @@ Definition set_body (rec : node -> bool -> val -> sres) (s : src) (buf : bool)
               | Some e0 =>
                 (* x := s[i] for pointer and builtin elements (a copy), &s[i] otherwise *)
                 let copyval := is_builtin (n_typn en) && negb (n_ptr en) in
-                match rec en false e0 with
+                match rec en (wbk && negb lg) e0 with
                 | SFall e2 => SRet (VSlice nl (upd_nth (Z.to_nat i) e2 es) ex) false None
-                | SRet e2 _ e => SRet (VSlice nl (if copyval then es else upd_nth (Z.to_nat i) e2 es) ex) false e
+                | SRet e2 wb e => SRet (VSlice nl (if copyval then es else upd_nth (Z.to_nat i) e2 es) ex) (negb lg && wb) e
                 | SPanic k => SPanic k
                 end
               end
@@ -311,16 +335,17 @@ Definition set_body (rec : node -> bool -> val -> sres) (s : src) (buf : bool)
   | typeBasic => SFall (assign_val self s buf x)
   end.
 
-(* [set_node s buf n pmap v depth path]: the code writeNode emits for node n in set mode, run with
-   its variable designating the stored value v (pointer flag included); pmap = the parent is a map. *)
-Fixpoint set_node (s : src) (buf : bool) (n : node) (pmap : bool) (v : val) (depth : nat) (path : list string)
+(* [set_node lg s buf n wbk v depth path]: the code writeNode emits for node n in set mode, run with
+   its variable designating the stored value v (pointer flag included); wbk = the store-back of an
+   enclosing by-value map entry is pending. *)
+Fixpoint set_node (lg : bool) (s : src) (buf : bool) (n : node) (wbk : bool) (v : val) (depth : nat) (path : list string)
   {struct n} : sres :=
   match n with
   | Node ty tn tu nm pk pki p chld mk mv sl hb hc =>
     let lenchk := match ty with typeBasic => false | _ => true end in
     if lenchk && negb (Nat.ltb depth (List.length path)) then SFall v else
-    let body := set_body (fun ch pm f => set_node s buf ch pm f (S depth) path) s buf ty tn p chld mk mv sl
-                         (Node ty tn tu nm pk pki p chld mk mv sl hb hc) pmap depth path in
+    let body := set_body lg (fun ch w f => set_node lg s buf ch w f (S depth) path) s buf ty tn p chld mk mv sl
+                         (Node ty tn tu nm pk pki p chld mk mv sl hb hc) wbk depth path in
     if p then
       match v with
       | VPtr None => SRet v false None                 (* if v == nil { return nil } *)
@@ -332,15 +357,18 @@ Fixpoint set_node (s : src) (buf : bool) (n : node) (pmap : bool) (v : val) (dep
 
 (* ---------- the methods ---------- *)
 (* Set / SetWithBuffer on a pointer to the value: the object afterwards and the error *)
-Definition set_method (n : node) (v : val) (path : list string) (s : src) (buf : bool) : out val :=
+Definition set_method_of (lg : bool) (n : node) (v : val) (path : list string) (s : src) (buf : bool) : out val :=
   match path with
   | [] => Ret v None
-  | _ => match set_node s buf n false v 0 path with
+  | _ => match set_node lg s buf n false v 0 path with
          | SFall v' => Ret v' None
          | SRet v' _ e => Ret v' e
          | SPanic k => Panic k
          end
   end.
+Definition set_method : node -> val -> list string -> src -> bool -> out val := set_method_of false.
+(* the same before fix f *)
+Definition set_method_old : node -> val -> list string -> src -> bool -> out val := set_method_of true.
 
 (* the header: which object the body works on.  Only the forms that hand over the object itself
    are modelled here (None otherwise: by-value and nil forms belong to C12 / C02). *)
